@@ -73,4 +73,11 @@ PROPS = {
         "trusted_base": ["flock exclusion and the atomicity of O_APPEND writes are the operating system's; the model's atomic steps are the calls of `send` regenerated from go/ast", "bufio.Scanner token limit modelled as: scanning stops at the first line longer than the limit"],
         "assumptions": ["interleavings are those the Go scheduler / OS produce in the run; all interleavings are covered by the theorem over schedules, not by the run"],
     },
+    "C13": {
+        "props": "Props/C13.v", "scenarios": ["c13"],
+        "rule": "fault injection through wrappers of state.State and storage.Storage: for every board message of an honest n=3,t=2 key generation + signing batch and every durable write (state.Set / storage.Send) it causes, the node is killed right before that write, restarted on the same state, the message is delivered again (the offset is saved only after handling) and the ceremony is driven to the end; round state, pending operations and signatures must equal the crash-free run, the board may contain duplicates. Plus a clean stop/start (services rebuilt, NewOperationRepo included) before every message. Every history runs on the Coq model with the same crash semantics.",
+        "exhaustive": {"quick": True, "thorough": True},
+        "trusted_base": ["a write is durable when state.Set / storage.Send returns (LevelDB and the file system are trusted); crash = the first k durable writes of the handler"],
+        "assumptions": ["crashes inside API requests (operation results) and double crashes are not enumerated in this round"],
+    },
 }
